@@ -8,7 +8,8 @@ import os
 import sys
 
 SCHEMAS = {
-    "xyz": {"x": {"a": "INT", "b": "INT"}, "y": {"b": "INT", "c": "INT"}, "z": {"a": "INT", "c": "TEXT"}, "w": {"d": "TEXT", "e": "DATE"}},
+    "xyz": {"x": {"a": "INT", "b": "INT"}, "y": {"b": "INT", "c": "INT"}, "z": {"a": "INT", "c": "TEXT"}, "w": {"d": "TEXT", "e": "DATE"},
+            "mixed": {"foo": "INT", "Bar": "INT", "BAZ": "TEXT"}},
     "fixture": {"x": {"a": "INT", "b": "INT"}, "y": {"b": "INT", "c": "INT"}, "z": {"b": "INT", "c": "INT"}, "w": {"d": "TEXT", "e": "TEXT"}},
     "none": None,
 }
